@@ -851,6 +851,37 @@ def process_fn(toks, it, fs: FnSpec, qual, ed: Edits, log, unit_in_trait_impl):
                 if depth == 0:
                     ifopen = q; break
         after = next_sig(toks, ifclose + 1, hi)
+        pe = prev_sig_idx(toks, ifopen - 1) if ifopen is not None else -1
+        if ifopen is not None and pe >= 0 and toks[pe].kind == "ident" and toks[pe].text == "else" \
+                and next_sig(toks, ifopen + 1, hi) == k and after is not None and toks[after].text == ";":
+            # `let PAT = E else { continue; }; REST`  ->  `if let PAT = E { REST }`   (same control flow in a for body)
+            q = pe - 1
+            depth = 0
+            let_tok = None
+            while q > inner[0]:
+                tq = toks[q]
+                if tq.kind == "punct" and tq.text in (")", "]", "}"): depth += 1
+                elif tq.kind == "punct" and tq.text in ("(", "[", "{"):
+                    if depth == 0: break
+                    depth -= 1
+                elif tq.kind == "punct" and tq.text == ";" and depth == 0:
+                    break
+                q -= 1
+            first = next_sig(toks, q + 1, hi)
+            if first is None or toks[first].text != "let":
+                raise LostAnchor(f"{qual}: R17: unsupported `let .. else {{ continue }}` shape")
+            # the let must sit directly in the for body
+            depth = 0
+            for q2 in range(inner[0] + 1, first):
+                if toks[q2].kind == "punct" and toks[q2].text == "{": depth += 1
+                elif toks[q2].kind == "punct" and toks[q2].text == "}": depth -= 1
+            if depth != 0:
+                raise LostAnchor(f"{qual}: R17: `let .. else {{ continue }}` nested deeper than the for body")
+            ed.insert(toks[first].pos, "if ", prio=-2)
+            ed.replace(toks[pe].pos, toks[after].end, "{")
+            ed.insert(toks[inner[1]].pos, "} ", prio=2)
+            log["rewrites"].append({"rule": "R17", "fn": qual, "before": "let P = E else { continue; }; REST", "after": "if let P = E { REST }", "count": 1})
+            continue
         if ifopen is None or (after is not None and toks[after].text == "else"):
             raise LostAnchor(f"{qual}: R17: unsupported shape around `continue`")
         # the if must sit directly in the for body
